@@ -247,6 +247,13 @@ def oracle(case, impl):
         if m and m.group(1) != "481":
             return ["a CANCEL that matches no pending INVITE was answered %s instead of 481" % m.group(1)]
     if kind == "race":
+        # "a CANCEL or BYE that matches the pending INVITE is itself answered 200 ... a CANCEL that no longer matches gets 200 or 481":
+        # every CANCEL / BYE of the script is answered, once, with its own CSeq method
+        for meth, word in (("BYE", "bye"), ("CANCEL", "cancel")):
+            sent = sum(1 for e in case[7].split(",") if e == word or (word == "cancel" and e == "cancelx"))
+            got = [n for n, _ in evs if re.match(r"W:SIP/2.0_[2-6]\d\d_[^|]*\|cseq=\d+_%s\|" % meth, n)]
+            if len(got) != sent:
+                return ["%d %s request(s) arrived, %d final response(s) with CSeq method %s were sent (events: %s)" % (sent, meth, len(got), meth, case[7])]
         # an established session only ends through a BYE (the session timer lies far beyond every script)
         names = [n for n, _ in evs]
         if "accept-result:ok" in names and "terminated:uas" in names and "bye" not in case[7].split(","):
